@@ -784,8 +784,19 @@ class ResourceAnalysis:
                     if not isinstance(val, Lin):
                         self.unknown('RES.3', f'{g.name} row {row}', cw[0][1].shortloc(), f'holder count set to a value the evaluator cannot follow ({val})'); continue
                     d = val - Lin.sym('cnt')
-                    if not (d.is_const() and d.c > 0): continue          # not an admission
                     short = g.name.split('::')[-1]
+                    if not d.is_const() and set(val.t) <= {'cnt'} and not any(e[0] == 'call_unknown' for e in P.events):
+                        # the count is *set* (not stepped): right only where the value is the number of holders afterwards.  With the lock free
+                        # (count 0) `= 1` is the admission; with readers inside, one more holder is count + 1
+                        if v['op'] == 'None':
+                            d0 = Lin.const(val.c)          # cnt == 0
+                            if d0.c > 0: d = d0
+                        elif v['op'] == 'Read' and val.is_const() and val.c >= 1:
+                            self.add('RES.3', False, f'{short}() row {row}: the holder count is stepped by one per admitted request', cw[-1][1].shortloc(),
+                                     f'{short}() sets the holder count to {val.c} while readers hold the lock ({row}): with {val.c} reader(s) inside it reads {val.c} where {val.c + 1} hold the lock — '
+                                     f'after {val.c} unlockRead() calls the count is 0 and a queued writer is admitted next to the reader that is still inside')
+                            continue
+                    if not (d.is_const() and d.c > 0): continue          # not an admission
                     self.add('RES.2b', v['QE'], f'{short}() row {row}: a holder is credited without waiting only when nothing is queued', cw[0][1].shortloc(),
                              '' if v['QE'] else f'{short}() counts the caller as a holder although a request is queued ({row}): it overtakes every waiting request (a writer that waits for the readers to leave can be starved / passed)')
                     okop = v['op'] in ('None', 'Read')
